@@ -15,6 +15,8 @@
 -/
 import BumpverVerif.Model.Pep440
 import BumpverVerif.Proofs.Pep440Lemmas
+-- the functions this property's mechanism lives in are TRANSLATED from the Python source on every run (Gen/F_*.lean) and proved equal to the hand model:
+import BumpverVerif.Proofs.Tie_parseLetterVersion
 namespace BV
 
 /-! ## (a) "a total preorder on all strings (reflexive, transitive, total, with equality
